@@ -167,6 +167,7 @@ type run struct {
 	runReturned bool
 	runRetAt    time.Time
 	waitRet     bool
+	openAtWait  []string // closable guns of started instances still open when Engine.Wait returned
 	cancelled   bool
 	cancelAt    time.Time
 	cancelStamp int
@@ -268,6 +269,14 @@ func (r *run) scenario(x *vs.X) func(end, msg string) error {
 		r.runErr, r.runReturned, r.runRetAt = err, true, time.Now()
 		r.eng.Wait()
 		r.waitRet = true
+		r.openAtWait = nil
+		for pi, w := range r.pools {
+			for _, g := range w.Guns {
+				if w.Closable && g.Bound && g.Shots >= 0 && g.Owner >= -1 && g.Closed == 0 {
+					r.openAtWait = append(r.openAtWait, fmt.Sprintf("pool %d gun %d", pi, g.Index))
+				}
+			}
+		}
 		cancel()
 	})
 	if c.Cancel {
@@ -559,6 +568,9 @@ func (r *run) checkC05(end, msg string) error {
 	// quiescence
 	if !r.waitRet {
 		return fmt.Errorf("WAIT[%s]: Engine.Wait did not return", f.Kind)
+	}
+	if len(r.openAtWait) > 0 {
+		return fmt.Errorf("CLOSE: Engine.Wait returned while closable guns of started instances were still open: %v", r.openAtWait)
 	}
 	if s, fi := r.metrics.InstanceStart.Get(), r.metrics.InstanceFinish.Get(); s != fi {
 		return fmt.Errorf("QUIESCENCE: %d instances started, %d finished", s, fi)
